@@ -5,7 +5,7 @@ import encutils  # noqa: E402
 
 MEDIA = {"appxml": ["application/xml", "Application/XML-DTD"], "appxmlplus": ["application/atom+xml", "application/xhtml+xml"],
          "textxml": ["text/xml", "text/xml-external-parsed-entity"], "textxmlplus": ["text/vnd.x+xml"], "html": ["text/html", "TEXT/HTML"],
-         "css": ["text/css"], "text": ["text/plain", "text/javascript"], "other": ["image/png", "application/octet-stream"]}
+         "css": ["text/css"], "text": ["text/plain", "text/javascript"], "other": ["image/png", "application/octet-stream", "image/svg+xml", "model/x3d+xml"]}
 BOMS = {"utf-8": b"\xef\xbb\xbf", "utf_16_le": b"\xff\xfe", "utf_16_be": b"\xfe\xff"}
 
 
@@ -58,8 +58,18 @@ def run_row(item):
             e = encutils.getEncodingInfo(Resp(ct), doc)
             o = {"out": "ok", "encoding": none(e.encoding), "mismatch": "true" if e.mismatch else "false",
                  "http": none(e.http_encoding), "xml": none(e.xml_encoding), "meta": none(e.meta_encoding)}
+            # documents that end inside an element whose content is raw text, inside a comment, inside a tag
+            for poison in ("<html><head><style> a { left: 0 }", "<html><!-- never closed", "<html><script> if (a < b) {", "<html><meta http-equiv="):
+                try:
+                    encutils.getMetaInfo(poison)
+                    encutils.getEncodingInfo(Resp("text/html"), poison)
+                except Exception:
+                    pass
+            e2 = encutils.getEncodingInfo(Resp(ct), doc)
+            o["stable"] = (none(e2.encoding), bool(e2.mismatch), none(e2.http_encoding), none(e2.xml_encoding), none(e2.meta_encoding)) == \
+                          (o["encoding"], bool(e.mismatch), o["http"], o["xml"], o["meta"])
         except Exception as ex:
-            o = {"out": "EXC:" + type(ex).__name__, "encoding": "", "mismatch": "", "http": "", "xml": "", "meta": ""}
+            o = {"out": "EXC:" + type(ex).__name__, "encoding": "", "mismatch": "", "http": "", "xml": "", "meta": "", "stable": True}
         a["content_type"] = ct
     elif r["kind"] == "sniff":
         doc = document(r["xml"], "none", True)
